@@ -765,15 +765,26 @@ func (g *pgen) plugins(form int) *doc.Node {
 		return m
 	}
 	n := 1 + g.r.IntN(4)
+	var listed []string
+	lsrc := func() string {
+		// in list form the same source may legitimately occur more than once (e.g. one plugin, two registries)
+		if len(listed) > 0 && g.chance(4) {
+			g.feat("plugins:repeated-source-in-list")
+			return listed[g.r.IntN(len(listed))]
+		}
+		s := src()
+		listed = append(listed, s)
+		return s
+	}
 	for i := 0; i < n; i++ {
 		switch {
 		case (form == 1 || form == 6) && g.chance(2):
-			l.Seq = append(l.Seq, doc.S(src()))
+			l.Seq = append(l.Seq, doc.S(lsrc()))
 		case (form == 2 || form == 6) && g.chance(2):
 			m := doc.M(doc.P(src(), g.pluginConfig()), doc.P(src(), g.pluginConfig()))
 			l.Seq = append(l.Seq, m)
 		default:
-			l.Seq = append(l.Seq, doc.M(doc.P(src(), g.pluginConfig())))
+			l.Seq = append(l.Seq, doc.M(doc.P(lsrc(), g.pluginConfig())))
 		}
 	}
 	return l
@@ -1005,7 +1016,14 @@ func (g *pgen) waitStep() *doc.Node {
 
 func (g *pgen) inputStep() *doc.Node {
 	g.feat("step:input")
-	m := g.contentsStep([]string{"block", "input", "manual"}, "input", 1)
+	vk := 1
+	if g.chance(5) {
+		vk = 0 // `block: ~` - an input step whose family value is null (possibly its only key)
+	}
+	m := g.contentsStep([]string{"block", "input", "manual"}, "input", vk)
+	if vk == 0 && g.chance(2) {
+		return m
+	}
 	if g.chance(2) {
 		f := doc.L()
 		f.Seq = []*doc.Node{}
